@@ -10,7 +10,8 @@
    i.e. for every execution of the asynchronous fail-stop network over the transcribed
    `raft_step`, no two members ever hold different entries at the same committed position.
    It is NOT proved in full here; what is proved is listed below (`_partial`).            *)
-From HV Require Import Proto.RaftNet Proto.PRaftLocal.
+From HV Require Import Proto.RaftNet Proto.PRaftLocal Proto.PRaftElection Proto.PRaftRefine Proto.PRaftLeader
+  Proto.PRaftExamples.
 
 Definition C40_raft_sms (n : N) : Prop := C40_raft_sms_stmt n.
 
@@ -32,3 +33,24 @@ Theorem C40_raft_commit_monotone : forall n g1 g2, gsteps n g1 g2 ->
   forall m, commit (g_st g1 m) <= commit (g_st g2 m).
 Proof. intros n g1 g2 H m. exact (proj2 (proj2 (gsteps_mono n g1 g2 H m))). Qed.
 Print Assumptions C40_raft_commit_monotone.
+
+(* Election Safety: at most one leader per term, across all moments of every execution
+   (quorum intersection over the votes ever cast) *)
+Theorem C40_raft_election_safety : forall n g1 g2, reachable n g1 -> gsteps n g1 g2 ->
+  forall a b t, a < n -> b < n -> leader_in (g_st g1 a) t -> leader_in (g_st g2 b) t -> a = b.
+Proof. exact election_safety. Qed.
+Print Assumptions C40_raft_election_safety.
+
+(* Leader Append-Only: while a member stays leader of a term its log only grows by appending *)
+Theorem C40_raft_leader_append_only : forall n g1 g2, gsteps n g1 g2 ->
+  forall m t, leader_in (g_st g1 m) t -> term (g_st g2 m) = t ->
+  rrole (g_st g2 m) = Leader /\ exists e, log (g_st g2 m) = log (g_st g1 m) ++ e.
+Proof. exact leader_append_only. Qed.
+Print Assumptions C40_raft_leader_append_only.
+
+(* non-vacuity: a reachable state of the 3-member network with an elected leader and an entry
+   committed on two members *)
+Example C40_nonvacuous : exists g, reachable 3 g /\
+  leader_in (g_st g 0) 1 /\ committed_prefix (g_st g 0) = [ex_entry] /\
+  committed_prefix (g_st g 1) = [ex_entry] /\ term (g_st g 2) = 0.
+Proof. exact ex_run. Qed.
